@@ -77,7 +77,13 @@ class _CodeValidator(ast.NodeVisitor):
     self.verify(
         node,
         permissions.CodePermission.ASSIGN,
-        (ast.Assign),
+        (
+            ast.Assign,
+            ast.AugAssign,
+            ast.AnnAssign,
+            # NamedExpr is not supported until Python 3.8.
+            getattr(ast, 'NamedExpr', None),
+        ),
         'Assignment is not allowed.',
     )
 
@@ -99,7 +105,8 @@ class _CodeValidator(ast.NodeVisitor):
     self.verify(
         node,
         permissions.CodePermission.EXCEPTION,
-        (ast.Try, ast.Raise, ast.Assert),
+        # TryStar is not supported until Python 3.11.
+        (ast.Try, getattr(ast, 'TryStar', None), ast.Raise, ast.Assert),
         'Exception is not allowed.',
     )
 
